@@ -2,56 +2,6 @@ import MgpuModel.C11
 /-! # C11 helper: environment wrapper around the tick-exact `Dma` and basic step lemmas -/
 namespace C11
 
-/-- `Dma` plus the environment's bookkeeping (the same fields `DrvSt`/`dmaOp` keep) and two ghost
-    histories: `seen` = every memory transaction handed to the memory side, in order;
-    `drained` = every completion response collected by the CP side, in order. -/
-structure Env where
-  s : Dma
-  outstanding : List MemReq := []
-  cps : List CpReq := []
-  nextCp : Nat := 0
-  seen : List MemReq := []
-  drained : List Nat := []
-
-/-- environment moves; `inject` (an arbitrary response id pushed into ToMem's incoming buffer —
-    duplicated, stale or never issued) is the only move `dmaOp` cannot make -/
-inductive EnvOp
-  | copy (k : Kind) (addr len : Nat)
-  | tick
-  | take (k : Nat)
-  | respond (j : Nat)
-  | drain
-  | inject (id : Nat)
-deriving Repr
-
-def Env.step (e : Env) : EnvOp → Env
-  | .copy k a l =>
-    let r : CpReq := { id := e.nextCp, kind := k, addr := a, len := l }
-    { e with s := { e.s with cpIn := e.s.cpIn ++ [r] }, cps := e.cps ++ [r], nextCp := e.nextCp + 1 }
-  | .tick => { e with s := e.s.tick.1 }
-  | .take k =>
-    { e with s := { e.s with memOut := e.s.memOut.drop k },
-             outstanding := e.outstanding ++ e.s.memOut.take k,
-             seen := e.seen ++ e.s.memOut.take k }
-  | .respond j =>
-    if e.s.memIn.length ≥ e.s.memCap then e else
-    match e.outstanding[j % e.outstanding.length]? with
-    | none => e
-    | some r =>
-      { e with s := { e.s with memIn := e.s.memIn ++ [r.id] },
-               outstanding := e.outstanding.eraseIdx (j % e.outstanding.length) }
-  | .drain => { e with s := { e.s with cpOut := [] }, drained := e.drained ++ e.s.cpOut }
-  | .inject id => { e with s := { e.s with memIn := e.s.memIn ++ [id] } }
-
-def Env.init (log2 maxReq memCap : Nat) : Env :=
-  { s := { log2 := log2, maxReq := maxReq, memCap := memCap } }
-
-def Env.run (e : Env) (ops : List EnvOp) : Env := ops.foldl Env.step e
-
-def EnvOp.isInject : EnvOp → Bool
-  | .inject _ => true
-  | _ => false
-
 theorem Env.run_append (e : Env) (ops : List EnvOp) (op : EnvOp) :
     e.run (ops ++ [op]) = (e.run ops).step op := by
   simp [Env.run, List.foldl_append]
